@@ -218,10 +218,52 @@ static bool x_intact(void)
 	return seen == 1;
 }
 
+/* C10R: a mirror of the router-key table driven only by its update callback, through the real rtr_sync */
+static bool KEYCB;
+static struct ktab KMIRROR;
+static bool KMIRROR_ON;
+static char KMIRROR_BAD[300];
+
+static void key_cb(struct spki_table *t, const struct spki_record rec, const bool added)
+{
+	struct krec r;
+
+	(void)t;
+	if (!KMIRROR_ON)
+		return;
+	k_from_spki(&rec, &r);
+	if (added) {
+		if (k_find(&KMIRROR, &r) >= 0 && !KMIRROR_BAD[0]) {
+			struct vbuf b = {0};
+
+			vb_puts(&b, "callback reports the addition of a key the callback stream already holds: ");
+			k_rec_str(&b, &r);
+			snprintf(KMIRROR_BAD, sizeof(KMIRROR_BAD), "%s", b.p);
+			vb_free(&b);
+		} else if (k_find(&KMIRROR, &r) < 0) {
+			k_add(&KMIRROR, &r);
+		}
+	} else {
+		if (k_find(&KMIRROR, &r) < 0 && !KMIRROR_BAD[0]) {
+			struct vbuf b = {0};
+
+			vb_puts(&b, "callback reports the removal of a key the callback stream does not hold: ");
+			k_rec_str(&b, &r);
+			snprintf(KMIRROR_BAD, sizeof(KMIRROR_BAD), "%s", b.p);
+			vb_free(&b);
+		} else {
+			k_remove(&KMIRROR, &r);
+		}
+	}
+}
+
 static void tables_build(unsigned int mask, bool with_x)
 {
 	pfx_table_init(&PFX, NULL);
-	spki_table_init(&SPKI, NULL);
+	spki_table_init(&SPKI, KEYCB ? key_cb : NULL);
+	KMIRROR.n = 0;
+	KMIRROR_BAD[0] = 0;
+	KMIRROR_ON = KEYCB;
 	if (with_x) {
 		struct spki_record sr;
 
@@ -252,6 +294,7 @@ static void tables_build(unsigned int mask, bool with_x)
 
 static void tables_free(void)
 {
+	KMIRROR_ON = false; /* destruction is not part of the statement about key callbacks */
 	pfx_table_free(&PFX);
 	spki_table_free(&SPKI);
 }
@@ -603,6 +646,15 @@ static void build_semantic(void)
 	h = alpha_new("ipv6 prefix flags=255 (absent record)");
 	pdu_ipv6(&h->b, SOCKVER, 255, 0, 0, (uint32_t[]){0, 0, 0, 0}, 400);
 	h->cls = CL_BADFLAGS;
+	h = alpha_new("ipv4 prefix length 24 max-length 33");
+	pdu_ipv4(&h->b, SOCKVER, 1, 24, 33, 0xc6336400, 64500);
+	h->cls = CL_BADFLAGS;
+	h = alpha_new("ipv6 prefix length 48 max-length 129");
+	pdu_ipv6(&h->b, SOCKVER, 1, 48, 129, (uint32_t[]){0x20010db8, 0x00630000, 0, 0}, 64500);
+	h->cls = CL_BADFLAGS;
+	h = alpha_new("announce ipv4 absent record, zero field 0xff");
+	pdu_ipv4(&h->b, SOCKVER, 1, U_PFX[2].len, U_PFX[2].maxlen, U_PFX[2].a[0], U_PFX[2].asn);
+	h->b.p[h->b.len - 20 + 11] = 0xff; /* the reserved octet after the max-length: to be ignored */
 	h = alpha_new("ipv4 prefix length 33");
 	pdu_ipv4(&h->b, SOCKVER, 1, 33, 33, 0xc0a80000, 300);
 	h->cls = CL_BADFLAGS; /* same class of report: corrupt data, echoing the PDU */
@@ -1208,7 +1260,7 @@ static void run_cases(void)
 /* ================================================================== C03: responses through the real FSM thread */
 enum { Y_ANN = 0, Y_WD = 1 };
 #define NSYM_REC 14 /* announce / withdraw x 7 universe records */
-enum { Y_FLAGS2 = NSYM_REC, Y_NOTIFY, Y_RESETQ, Y_CRESET, Y_CRESP, Y_BADLEN, Y_ERRPDU, Y_WRONGVER, Y_KEY_FLAGS3, Y_V4_FLAGS3, Y_V6_FLAGS255, Y__N };
+enum { Y_FLAGS2 = NSYM_REC, Y_NOTIFY, Y_RESETQ, Y_CRESET, Y_CRESP, Y_BADLEN, Y_ERRPDU, Y_WRONGVER, Y_KEY_FLAGS3, Y_V4_FLAGS3, Y_V6_FLAGS255, Y_V4_MAXLEN33, Y_V6_MAXLEN129, Y__N };
 /* bulk symbols: announce the first K "new" fillers of a family (K = 100, 101, 201), withdraw all "old" fillers of a family */
 enum { Y_BULK_ANN = 32, Y_BULK_WD = Y_BULK_ANN + 9, Y_BULK_END = Y_BULK_WD + 3 };
 static const int BULK_K[3] = {100, 101, 201};
@@ -1236,7 +1288,8 @@ static void sym_str(struct vbuf *b, int y)
 {
 	static const char *rn[7] = {"v4-present(twin of other source)", "v4-present", "v4-absent", "v6-present", "v6-absent(::/0)", "key-present", "key-absent"};
 	static const char *on[] = {"prefix-pdu-flags=2", "serial-notify", "reset-query", "cache-reset", "cache-response", "bad-length-pdu", "error-report", "wrong-version-pdu",
-				   "router-key-pdu-flags=3(absent key)", "prefix-pdu-flags=3(absent v4 record)", "prefix-pdu-flags=255(absent v6 record)"};
+				   "router-key-pdu-flags=3(absent key)", "prefix-pdu-flags=3(absent v4 record)", "prefix-pdu-flags=255(absent v6 record)",
+				   "v4-prefix-len-24-maxlen-33", "v6-prefix-len-48-maxlen-129"};
 
 	if (y < NSYM_REC)
 		vb_printf(b, "%s %s", y % 2 == Y_ANN ? "announce" : "withdraw", rn[y / 2]);
@@ -1272,7 +1325,10 @@ static void rviol(const char *key, const char *what)
 	struct vbuf rj = {0};
 	char k[300];
 
-	snprintf(k, sizeof(k), "C03|%s", key);
+	/* C10R judges the key callbacks only; the C03 oracle runs along but reports under C03 */
+	if (!strcmp(PROP, "C10R") && strncmp(key, "key-callbacks", 13))
+		return;
+	snprintf(k, sizeof(k), "%s|%s", PROP, key);
 	resp_json(&rj, true);
 	v_violation(k, what, rj.p);
 	vb_free(&rj);
@@ -1342,6 +1398,13 @@ static void put_test_response(struct bytes *b)
 			break;
 		case Y_V6_FLAGS255:
 			cache_put_record(b, 1, 4, 255);
+			break;
+		/* a legal prefix length with a max-length beyond the address width */
+		case Y_V4_MAXLEN33:
+			pdu_ipv4(b, 1, 1, 24, 33, 0xc6336400, 64500);
+			break;
+		case Y_V6_MAXLEN129:
+			pdu_ipv6(b, 1, 1, 48, 129, (uint32_t[]){0x20010db8, 0x00630000, 0, 0}, 64500);
 			break;
 		}
 	}
@@ -1648,6 +1711,23 @@ static void run_resp_once(void)
 			}
 		}
 	}
+	if (KEYCB) {
+		static struct k_enum ke;
+		struct vbuf why = {0};
+		struct ktab own;
+
+		/* the table as the callbacks describe it vs. the table as it is (all sources) */
+		KMIRROR_ON = false;
+		k_enumerate(&SPKI, &ke);
+		if (KMIRROR_BAD[0])
+			rviol("key-callbacks|impossible-change", KMIRROR_BAD);
+		else if (!k_enum_equal(&ke, &KMIRROR, &why)) {
+			snprintf(what, sizeof(what), "the router-key table differs from the set obtained by replaying its update callbacks: %s", why.p);
+			rviol(RC.kind ? "key-callbacks|mirror-differs|reload" : "key-callbacks|mirror-differs|delta", what);
+		}
+		(void)own;
+		vb_free(&why);
+	}
 	{
 		struct vbuf ob = {0};
 
@@ -1672,7 +1752,7 @@ static void explore_resp(void)
 		vb_free(&cj);
 		return;
 	}
-	v_crumb("C03|response", cj.p);
+	v_crumb(!strcmp(PROP, "C10R") ? "C10R|response" : "C03|response", cj.p);
 	ex_begin_run();
 	run_resp_once();
 	V_COUNT("transitions", 1);
@@ -1774,8 +1854,9 @@ static void worker(void)
 	SOCKVER = (int)v_argl("sockver", 1);
 	build_alphabet(v_flag("reduced"));
 	build_semantic();
-	if (!strcmp(PROP, "C03")) {
+	if (!strcmp(PROP, "C03") || !strcmp(PROP, "C10R")) {
 		BULK = v_flag("bulk");
+		KEYCB = !strcmp(PROP, "C10R");
 		env_small_thread_stacks();
 		run_resp_cases();
 		return;
